@@ -192,11 +192,12 @@ theorem code_matches_model :
        "u.removeClientLocked(addr)"] ∧
     Gen.Upstream.makeRequestToHost =
       ["u.stats.RqTotal.Inc()",
-       "req.RegisterHook(func(req *simpleRequest) { if req.Response().Type == Error { u.stats.RqFailureTotal.Inc() } else { u.stats.RqSuccessTotal.Inc() } u.stats.RqDurationMs.Record(uint64(req.Duration() / time.Millisecond)) })",
-       "select { case <-u.quit: req.SetResponse(newError(upstreamExited)) return default: }",
-       "c, err := u.getClient(addr)",
-       "if err != nil { u.triggerSlotsRefresh() req.SetResponse(newError(err.Error())) return }",
-       "c.Send(req)"] ∧
+      "req.RegisterHook(func(req *simpleRequest) { if req.Response().Type == Error { u.stats.RqFailureTotal.Inc() } else { u.stats.RqSuccessTotal.Inc() } u.stats.RqDurationMs.Record(uint64(req.Duration() / time.Millisecond)) })",
+      "select { case <-u.quit: req.SetResponse(newError(upstreamExited)) return default: }",
+      "verifPause(\"upstream.request.checked\", u)",
+      "c, err := u.getClient(addr)",
+      "if err != nil { u.triggerSlotsRefresh() req.SetResponse(newError(err.Error())) return }",
+      "c.Send(req)"] ∧
     Gen.Upstream.triggerSlotsRefresh =
       ["select { case u.slotsRefreshCh <- struct{}{}: default: }",
        "if u.slotsRefTriggerHook != nil { u.slotsRefTriggerHook() }"] ∧
